@@ -2,7 +2,7 @@
    Statements only (copied from the lemma libraries); every proof is a bare
    `exact`; see the cited files in coq/proofs for the proofs. *)
 From Coq Require Import List NArith ZArith Bool Arith Sorting.Sorted Sorting.Permutation.
-From D2P Require Import Str Err Xml TableTypes Tables Merge Package Content Save BulletsFacts MergeFacts SaveFacts.
+From D2P Require Import Str Err Xml TableTypes Tables Merge Package Content Save BulletsFacts MergeFacts SaveFacts Fmt Bullets Collector Walk ShapeFacts TokFacts FrameFacts ReplaceFacts.
 Import ListNotations.
 
 (* the text carried by the nodes that replace a text node (line breaks counted as newlines) is exactly str.replace of the node's text, provided the result has no line separator other than newline and does not end in one (the clause the proof forces) *)
@@ -65,3 +65,80 @@ Theorem C17_split_runs_are_one_stretch_partial :
   merge_sibs v ks = Ok ks' -> concat (map atoms ks') = concat (map atoms ks).
 Proof. exact merge_sibs_atoms_partial. Qed.
 Print Assumptions C17_split_runs_are_one_stretch_partial.
+
+(* PARAGRAPH LEVEL: for every inline subtree without hyperlinks (runs, wrappers, tabs, breaks, note references, pictures, forms, equations), whatever the replaced nodes contribute to the extracted paragraph is what the original contributes with each text node's characters replaced (newlines becoming line breaks) and EVERYTHING ELSE - tabs, markers, order - identical *)
+Theorem C17_paragraph_nodewise :
+  forall v old new t,
+  plain_inline t = true -> no_link t = true -> repl_ok old t = true ->
+  forall ns path i, replace_node old new t = Ok ns ->
+  emit_kids v path ns i = emit_repl v old new t.
+Proof. exact emit_replace_nodewise. Qed.
+Print Assumptions C17_paragraph_nodewise.
+
+(* a hit text node: its lines, separated by one line break each; rendered: join of the lines by newline *)
+Theorem C17_replaced_text_node_tokens :
+  forall v path i old new e c tx wuri,
+  is_text_tag e = true -> e_text e = Some (c :: tx) ->
+  contains old (c :: tx) = true -> e_wuri e = Some wuri ->
+  exists ns, replace_node old new (AE e []) = Ok ns
+    /\ emit_kids v path ns i = Ok (repl_toks old new (c :: tx))
+    /\ render false (repl_toks old new (c :: tx))
+       = join [10] (splitlines (replace old new (c :: tx))).
+Proof. exact emit_replaced_text_node. Qed.
+Print Assumptions C17_replaced_text_node_tokens.
+
+(* walking the replaced paragraph appends ONE record with the original paragraph's label, list marker, style, counters and list position, and the replaced contributions of its children *)
+Theorem C17_replaced_paragraph_walk :
+  forall v old new e ks ks' path s s' ps,
+  simple_par (AE e ks) = true -> forallb no_link ks = true ->
+  hit old e = false -> repl_ok old (AE e ks) = true -> ppr_clean old e ks = true ->
+  replace_node old new (AE e ks) = Ok [AE e ks'] ->
+  Inv s -> walk v path (AE e ks') s = Ok s' -> pars_at 4%nat (c_tree s) = Ok ps ->
+  exists p bl number cs ts,
+    pars_at 4%nat (c_tree s') = Ok (ps ++ [p])
+    /\ get_pStyle e ks = Ok (p_style p)
+    /\ get_par_number (to_numtable v) (c_counters s) (get_bullet_fmt (AE e ks)) = (cs, number)
+    /\ get_bullet (to_numtable v) (get_bullet_fmt (AE e ks)) number = Ok bl
+    /\ c_counters s' = cs /\ p_listpos p = get_list_position cs (get_bullet_fmt (AE e ks))
+    /\ emit_repl_kids v old new ks = Ok ts
+    /\ toks_of (p_runs p) = toks_of (c_queued s) ++ raw bl ++ ts.
+Proof. exact replaced_par_walk. Qed.
+Print Assumptions C17_replaced_paragraph_walk.
+
+(* a paragraph without the needle is left exactly as it is *)
+Theorem C17_untouched_paragraph :
+  forall old new t,
+  simple_par t = true -> needle_free old t = true -> replace_node old new t = Ok [t].
+Proof. exact replace_frame_paragraph. Qed.
+Print Assumptions C17_untouched_paragraph.
+
+(* several pairs are applied left to right, each to the result of the previous one *)
+Theorem C17_pairs_in_order :
+  forall p ps root,
+  replace_all (p :: ps) root
+  = (t <- replace_root_text (fst p) (snd p) root ;; replace_all ps t).
+Proof. exact replace_all_fold. Qed.
+Print Assumptions C17_pairs_in_order.
+
+(* C17_pairs_compose *)
+Theorem C17_pairs_compose :
+  forall ps qs root,
+  replace_all (ps ++ qs) root = (t <- replace_all ps root ;; replace_all qs t).
+Proof. exact replace_all_app. Qed.
+Print Assumptions C17_pairs_compose.
+
+(* pairs whose needle occurs nowhere change nothing *)
+Theorem C17_absent_needles_are_noops :
+  forall pairs root,
+  (forall p, In p pairs -> needle_free_below (fst p) root = true) -> replace_all pairs root = Ok root.
+Proof. exact replace_all_noop. Qed.
+Print Assumptions C17_absent_needles_are_noops.
+
+(* the local-name clause is needed in the model (it holds for every parsed tree): an element tagged w:t but named otherwise *)
+Theorem C17_mistagged_text_refuted :
+  exists v old new t ns,
+    plain_inline t = true /\ no_link t = true /\ text_leaves0 t = true /\ wf_pr t = true
+    /\ wuri_at_hits old t = true /\ replace_node old new t = Ok ns
+    /\ emit_kids v [] ns 0 <> emit_repl v old new t.
+Proof. exact emit_replace_nodewise_counterexample. Qed.
+Print Assumptions C17_mistagged_text_refuted.
